@@ -976,7 +976,7 @@ fn check_output(t0: &[Tok], t1: &[Tok], spec: &HashSet<String>, real: &[String],
                         let got = r.resolve(&chain1, absolute);
                         if got != vec![key] {
                             let shown: Vec<String> = got.iter().map(|k| show_key(*k)).collect();
-                            let kinds: String = got.iter().map(|k| k.0).collect();
+                            let kinds: String = got.iter().map(|k| k.0).collect::<BTreeSet<char>>().into_iter().collect();
                             r.fails.insert(format!(
                                 "capture:{}:{}:{}{} | '{}' printed for {} resolves to [{}] in the output",
                                 target,
@@ -1146,8 +1146,8 @@ fn run_case(target: &str, prog: &str, cx: &mut Ctx, out: &mut Out) {
                 let class = if all_emitted.contains(&e.name) { "generated-clash" } else { "other" };
                 let lvl = if e.key.0 == 'L' { "local" } else { "global" };
                 fails.insert(format!(
-                    "verbatim:{}:{} | {} '{}' is unique in its scope and not reserved but printed as '{}'",
-                    class, lvl, show_key(e.key), e.name, p
+                    "verbatim:{}:{}:{} | {} '{}' is unique in its scope and not reserved but printed as '{}'",
+                    class, lvl, e.key.0, show_key(e.key), e.name, p
                 ));
             }
         }
@@ -1156,6 +1156,20 @@ fn run_case(target: &str, prog: &str, cx: &mut Ctx, out: &mut Out) {
     cx.hist.add(&format!("entities:{}", (table.ents.len() / 4) * 4));
     if obs.contains("_0") || obs.contains("_1") {
         cx.hist.add("with-generated-name");
+    }
+    {
+        // the same generated leaf (name_k) assigned in two different scopes: the case that tells the per-scope
+        // `used_names` from `used_names_all_scopes`
+        let mut seen: HashMap<String, BTreeSet<String>> = HashMap::new();
+        for (k, q, srcname) in &names {
+            let l = q.last().unwrap();
+            if k.0 != 'L' && l != srcname {
+                seen.entry(l.clone()).or_default().insert(q[..q.len() - 1].join("::"));
+            }
+        }
+        if seen.values().any(|v| v.len() >= 2) {
+            cx.hist.add("same-generated-name-in-2-scopes");
+        }
     }
     if fails.is_empty() {
         out.case(&req, &obs, "ok");
@@ -1370,6 +1384,9 @@ fn sweep_programs(name: &str) -> Vec<String> {
         format!("ns {} gl zqg end", name),
         format!("fn zqf i {} {{ lv zql use L0 }}", name),
         format!("fn zqf - {{ lv {} use L0 }}", name),
+        // the same overloaded / reserved base name in two namespaces and at the root (per-scope used_names)
+        format!("ns zqn fn {0} i zqa {{ }} fn {0} f zqb {{ }} end ns zqm fn {0} i zqc {{ }} fn {0} f zqd {{ use F0 use F2 }} end fn {0} u zqe {{ use F1 use F3 }}", name),
+        format!("ns zqn gl {0} end ns zqm gl {0} fn zqf - {{ use G0 use G1 }} ns zqk gl {0} end end", name),
         // the name next to the candidates the generator derives from it
         format!("fn {0} i zqa {{ }} fn {0} f zqb {{ }} fn {0}_0 - {{ }} gl {0}_1", name),
         format!("fn {0}_0 - {{ }} fn zqf i {0} {{ use L0 use F0 }}", name),
@@ -1410,7 +1427,7 @@ pub fn run(args: &Args, out: &mut Out) {
     for (i, n) in special.iter().enumerate() {
         for (j, p) in sweep_programs(n).iter().enumerate() {
             // quick: every name as a function and as a local; the other positions on a seed-dependent quarter
-            if !(j == 0 || j == 8 || (i + j) % stride as usize == off) {
+            if !(j == 0 || j == 8 || j == 9 || (i + j) % stride as usize == off) {
                 continue;
             }
             for t in ["h", "m"] {
